@@ -221,7 +221,7 @@ pub fn random_expr(rng: &mut Rng, t: Ty, depth: usize, sigs: &[(u8, Ty)], div: b
     Sh::Op(sig.op, sig.params, kids)
 }
 
-pub const PATTERNS: [&str; 12] = [
+pub const PATTERNS: [&str; 13] = [
     "plain",
     "share-init-next",
     "share-next-bad",
@@ -234,6 +234,7 @@ pub const PATTERNS: [&str; 12] = [
     "input-is-output+named-nodes",
     "several-bads+constraints",
     "counter-deep",
+    "label-aliases-state",
 ];
 
 pub fn generate(seed: u64, stream: &str, index: u64, cfg: &GenCfg) -> SysSpec {
@@ -261,6 +262,9 @@ pub fn generate(seed: u64, stream: &str, index: u64, cfg: &GenCfg) -> SysSpec {
         }
         bits += w;
         tys.push(Ty::BV(w));
+    }
+    if pattern == "label-aliases-state" {
+        tys[0] = Ty::BV(1);
     }
     if pattern == "array-state" && cfg.arrays {
         tys.push(Ty::Arr(2, 3));
@@ -392,6 +396,20 @@ pub fn generate(seed: u64, stream: &str, index: u64, cfg: &GenCfg) -> SysSpec {
         spec.constraints.push(c);
     }
     // outputs
+    if pattern == "label-aliases-state" {
+        // a named 1-bit state that is directly an output and directly a bad state / constraint
+        let s0 = Sh::Sym(STATE_BASE, Ty::BV(1));
+        let out_name = if rng.chance(1, 2) { "lbl".to_string() } else { state_name(0) };
+        spec.outputs.push((out_name, s0.clone()));
+        if rng.chance(2, 3) {
+            spec.bads.push(s0.clone());
+        } else {
+            spec.constraints.push(Sh::Op(Op::Not, [0, 0], vec![s0.clone()]));
+            spec.constraints.push(s0.clone());
+            spec.constraints.pop();
+            spec.bads.push(s0);
+        }
+    }
     if pattern == "input-is-output+named-nodes" {
         let (ii, it) = in_sigs[0];
         spec.outputs.push((input_name(ii as usize, false), Sh::Sym(ii, it)));
